@@ -407,7 +407,11 @@ void run(const Value& plan, Result& r)
         r.probe("nesting_checked");
     }
     /* ---- the number of levels setup() reports is admitted by the grid ---- */
-    if (mode <= 4 && g->numberOfNodes() <= 20000) {
+    // (the sparse LU of the coarsest level is meant for small coarse grids: with a level cap of 2 on a long thin grid its
+    //  fill-in makes setup() take minutes, which is a cost, not a property; such plans only get the grid-level checks)
+    const long coarsest_estimate = (long)g->numberOfNodes() >> (2 * std::max(1, (int)plan.at("max_levels").as_int(-1) < 0
+                                                                              ? 3 : (int)plan.at("max_levels").as_int(-1) - 1));
+    if (mode <= 4 && g->numberOfNodes() <= 20000 && coarsest_estimate <= 1200) {
         SolverOpts o;
         o.prob.geometry = 0;
         o.prob.problem  = 0;
